@@ -66,6 +66,10 @@ type TurnScript struct {
 	Value int64       `json:"value"`
 	Meta  [][2]string `json:"meta,omitempty"` // user metadata attached to the emitted batch
 	Err   *ErrSpec    `json:"err,omitempty"`
+	// LateLogs are client logs the state raises with out.ClientLog AFTER its
+	// first successful Emit of the turn (the collector then holds them behind
+	// the data batch). Empty for every script written before the field existed.
+	LateLogs []LogSpec `json:"late_logs,omitempty"`
 }
 
 // StreamScript scripts one stream call: init + per-turn behaviour. When the
@@ -280,6 +284,19 @@ func (st *ScriptState) turn(kind string, in arrow.RecordBatch, out *vgirpc.Outpu
 			return out.EmitWithMetadata(b, m)
 		}
 		return out.Emit(b)
+	}
+	if len(t.LateLogs) > 0 {
+		inner, raised := emit, false
+		emit = func() error {
+			err := inner()
+			if err == nil && !raised {
+				raised = true
+				for _, l := range t.LateLogs {
+					out.ClientLog(vgirpc.LogLevel(l.Level), l.Msg, kvs(l.Extras)...)
+				}
+			}
+			return err
+		}
 	}
 	switch t.Act {
 	case "emit":
